@@ -1060,31 +1060,41 @@ def blocks_between(f, src, dst_set):
 
 
 # ------------------------------------------------ classification of returns
-def return_defs(f):
+def return_defs(f, follow=False):
     """classify every whole assignment to _0 of a Result-returning fn:
-    list of (bb, idx, cls, detail) with cls in ok / err / forward / other"""
+    list of (bb, idx, cls, detail) with cls in ok / err / forward / other.
+    With follow=True, `_0 = move _k` (a result kept in a local, or the return value of a spliced helper) is
+    followed to the definitions of _k, so the classification names the construct that produced the value
+    (path-insensitively: use only where every definition of _k can reach the return)."""
     out = []
-    for (bb, i, kind, payload) in f.defs().get(0, []):
-        if kind == 'call':
-            c = callee_of(payload)
-            if c in FROM_RESIDUAL:
-                out.append((bb, i, 'err', 'from_residual'))
+
+    def classify(local, depth, seen):
+        for (bb, i, kind, payload) in f.defs().get(local, []):
+            if kind == 'call':
+                c = callee_of(payload)
+                if c in FROM_RESIDUAL:
+                    out.append((bb, i, 'err', 'from_residual'))
+                else:
+                    out.append((bb, i, 'forward', c or 'indirect'))
             else:
-                out.append((bb, i, 'forward', c or 'indirect'))
-        else:
-            rv = payload
-            if rv['k'] == 'agg' and rv.get('adt') == 'core::result::Result':
-                out.append((bb, i, 'ok' if rv['variant'] == 'Ok' else 'err', rv['variant']))
-            elif rv['k'] == 'agg' and rv.get('adt') == 'core::option::Option':
-                out.append((bb, i, 'ok' if rv['variant'] == 'Some' else 'err', rv['variant']))
-            elif rv['k'] == 'use' and 'c' in rv['o'] and rv['o']['c'].get('cpath') == 'error::OK':
-                out.append((bb, i, 'ok', 'OK'))
-            elif rv['k'] == 'use' and 'c' in rv['o'] and 'error::OK' in rv['o']['c'].get('txt', ''):
-                out.append((bb, i, 'ok', 'OK'))
-            elif rv['k'] == 'use':
-                out.append((bb, i, 'forward', op_str(rv['o'])))
-            else:
-                out.append((bb, i, 'other', rv['k']))
+                rv = payload
+                if rv['k'] == 'agg' and rv.get('adt') == 'core::result::Result':
+                    out.append((bb, i, 'ok' if rv['variant'] == 'Ok' else 'err', rv['variant']))
+                elif rv['k'] == 'agg' and rv.get('adt') == 'core::option::Option':
+                    out.append((bb, i, 'ok' if rv['variant'] == 'Some' else 'err', rv['variant']))
+                elif rv['k'] == 'use' and 'c' in rv['o'] and rv['o']['c'].get('cpath') == 'error::OK':
+                    out.append((bb, i, 'ok', 'OK'))
+                elif rv['k'] == 'use' and 'c' in rv['o'] and 'error::OK' in rv['o']['c'].get('txt', ''):
+                    out.append((bb, i, 'ok', 'OK'))
+                elif rv['k'] == 'use':
+                    p = op_place(rv['o'])
+                    if follow and p is not None and not p['p'] and p['l'] > f.argc and p['l'] not in seen and depth < 6 and f.defs().get(p['l']):
+                        classify(p['l'], depth + 1, seen | {p['l']})
+                    else:
+                        out.append((bb, i, 'forward', op_str(rv['o'])))
+                else:
+                    out.append((bb, i, 'other', rv['k']))
+    classify(0, 0, {0})
     return out
 
 
